@@ -112,8 +112,13 @@ def r15a(model, ctx):
     need(n >= 3, f"only {n} View/Const window pairs recognised")
     # reinterpretation of the selected bits
     tv, tc = unparse(fv), unparse(fc)
-    ok = "if isinstance(shape, ShapeCastable):\n        value = shape(value)" in tv and \
+    # a shape-castable field is lifted with shape(value); when its underlying shape is signed the (unsigned) slice is first
+    # reinterpreted as signed — an enumeration with a signed shape refuses a value of another shape (F15)
+    ok = "if isinstance(shape, ShapeCastable):\n        if Shape.cast(shape).signed:\n            value = value.as_signed()\n        value = shape(value)" in tv and \
         "if Shape.cast(shape).signed:\n        return value.as_signed()\n    else:\n        return value" in tv
+    if not ok:
+        lifted = [c for c in ast.walk(fv) if isinstance(c, ast.Call) and unparse(c.func) == "shape" and len(c.args) == 1]
+        need(lifted, "View.__getitem__: the lifting of a shape-castable field (shape(value)) was not found")
     ctx.check(ok, R, "View.__getitem__:reinterpret", "shape-castable: shape(value); signed: as_signed(); else the raw slice",
               "a view's field must be shape(value) for shape-castable fields, value.as_signed() for signed fields, the raw slice otherwise",
               f"{D}:{fv.lineno}")
@@ -288,8 +293,24 @@ return cls(Const(member.value, cls.as_shape()))
 """], fact="cls(Const(member.value, cls.as_shape())), default member value 0",
                 why="a shaped enum constant must be cls(Const(member.value, cls.as_shape())) with None meaning the member with value 0")
     f = model.func(f"{E}::EnumType.from_bits")
-    ok = any(isinstance(s, ast.Return) and unparse(s.value) == "cls(bits)" for s in f.body)
-    ctx.check(ok, R, "EnumType.from_bits", "cls(bits)", "from_bits must look the member up by value: cls(bits)", f"{E}:{f.lineno}")
+    # `bits` is a bit pattern: the member is looked up by the value that pattern has in the enumeration's shape (a negative
+    # member of a signed enumeration has an unsigned pattern); the plain cls(bits) refuses those patterns
+    from ..engine.inline import propagate_locals as _pl
+    rets = [unparse(s.value) for s in _pl(f).body if isinstance(s, ast.Return)]
+    ok = rets == ["cls(Const(bits, cls.as_shape()).value)"]
+    ctx.check(ok, R, "EnumType.from_bits", "cls(Const(bits, cls.as_shape()).value)",
+              f"from_bits must look the member up by the value of the bit pattern in the enumeration's own shape "
+              f"(cls(Const(bits, cls.as_shape()).value)); found {rets}", f"{E}:{f.lineno}")
+    # Layout.format lifts fields the same way as View.__getitem__
+    ff = model.func(f"{D}::Layout.format")
+    tf = unparse(ff)
+    okf = "if shape.signed:\n            field_value = field_value.as_signed()\n        if isinstance(field.shape, ShapeCastable):" in tf
+    if not okf:
+        need("field.shape(field_value)" in tf or "field.shape(" in tf, "Layout.format: the lifting of shape-castable fields was not found")
+    ctx.check(okf, R, "Layout.format:signed-fields", "signed fields (shape-castable or not) are reinterpreted before use",
+              "Layout.format must reinterpret the slice of a signed field as signed before handing it to a shape-castable shape "
+              "(Signal(S) builds the format eagerly: a struct with a signed enumeration field could not be instantiated)",
+              f"{D}:{ff.lineno}")
     c = model.cls(f"{E}::EnumView")
     ms = model.class_methods(c)
     for name, op in (("__eq__", "=="), ("__ne__", "!=")):
